@@ -247,6 +247,17 @@ contract(
 )
 
 
+# ---- fg is resume_job with the wording "fg" and nothing else ------------------------------------------------------------------------
+contract(
+    F + "fg", "C20", params=dict(args=List(Str), stdin=Opaque("stream")), globals=G2, config=CFG, defs=DEFS,
+    externals=dict(EXT3, resume_job=Ext(ret=Union(NoneT, Tuple(Str, Str)), event="resumed", log="const", log_type=Int, requires=["wording == 'fg'", "nargs == 1"],
+                                       note="its own contract (selection, errors leave the table alone)")),
+    returns=Union(NoneT, Tuple(Str, Str)), emits=["resumed"],
+    ensures={"exactly-one-selection-by-resume_job-with-the-wording-fg": "len(log('resumed')) == 1"},
+    from_property="`fg` ... with no argument, `+`, `-` or a number select the documented job (fg adds nothing to resume_job's selection)",
+)
+
+
 # ---- the listing: every live job exactly once, in most-recently-used order, finished ones gone ---------------------------------------
 EXT_LIST = dict(EXT2)
 EXT_LIST["print_one_job"] = Ext(event="listed", log=0, log_type=Int, note="prints one line for the job number given (reads the table only)")
@@ -488,7 +499,7 @@ for _c in BY_PROP["C20"]:
     elif q == "disown_fn":
         _c.replay = _jobs_harness("disown_fn", ("job_ids", "force_auto_continue"))
         _c.native_domain = _jobs_domain([{"job_ids": j, "force_auto_continue": f, "auto_continue": False} for j in ([], [1], [2], [3], [5]) for f in (False, True)])
-    elif q in ("get_tasks", "get_jobs", "use_main_jobs", "jobs"):
+    elif q in ("get_tasks", "get_jobs", "use_main_jobs", "jobs", "fg"):
         _c.native_env = None
         _c.native_prepare = None
         _c.replay_extras = None
